@@ -56,7 +56,7 @@ def evaluate(case):
 
 
 def run(ctx):
-    import productmd.composeinfo as CI
+    from . import enums as CI
     ctx.rule = "growth spec Labels.tla: label order, is_ga, label_major_version, full_label, split/major/minor version; every emitted case on the real functions"
     mod, files, lines = core.gen_module("Labels", {"Names": list(CI.LABEL_NAMES)})
     cases = []
